@@ -86,11 +86,13 @@ PROPS = {
     },
     "C13": {
         "props_file": "Props/C13.v",
-        "run_files": ["Run/CaseC13.v"],
+        "run_files": ["Run/CaseC13.v", "Run/CaseLst.v"],
         "imports": ["Lib.Bytes", "Limiter.F32", "Limiter.Bucket", "Limiter.Limiter", "Run.CaseC13"],
         "case_type": "c13case",
         "checkers": {"RND": "check_c13", "BND": "check_c13", "SAT": "check_c13"},
-        "harness": [{"bin": "limiter"}],
+        "harness": [{"bin": "limiter"},
+                    # the limiter as the listener uses it: which key an attempt is charged to, and that nothing else is
+                    {"bin": "listener", "crate": "harness-app", "families": ["ADM"], "env": {"VERIF_FAMILY": "ADM"}, "case_type": "lstcase", "imports": ["Lib.Bytes", "Limiter.Limiter", "Listener.Machine", "Listener.Wire", "Run.CaseLst"], "checkers": {"ADM": "check_c15"}, "shard": 20}],
         "shard": 14,                       # 213 cases -> 16 coqc processes
         "quick_scale": 1, "thorough_scale": 12, "search_factor": 6,
         "ties": ["harness limiter binary: RateLimiter<u64> under a paused tokio clock vs Limiter.enqueue (decisions, tracked keys after every attempt, per-key solo runs)", "every history is also replayed with each rejected attempt repeated at the same instant: the other decisions must not change (observable side of C13_reject_free)"],
